@@ -454,9 +454,18 @@ SkM2 == << Msg("m1", <<"M1", "A_0", "A_entry", "A_0_entry">>),
 \* M3: groups of different messages share detail::messages; the `messages` container
 SkM3 == << Msg("m1", <<"M1", "A", "messages">>),
            Field(1, "f", <<"f1", "A">>, 0, "uint32"),
-           Group(1, "g", <<"g1", "A", "A_0">>),
+           Group(1, "g", <<"g1", "A", "A_0", "A_entry">>),
            Msg("m2", <<"M2", "A_0", "messages_0">>),
            Group(4, "g2", <<"g2", "A", "A_entry">>) >>
+
+\* M4: sibling groups and a nested one, in both declaration orders: a group named like the entry class of a
+\* LATER group (`A_entry` before `A`) shares detail::messages with it just as well
+SkM4 == << Msg("m", <<"M1">>),
+           Group(1, "g", <<"g1", "A", "A_entry">>),
+           Field(2, "gf", <<"x1">>, 0, "uint16"),
+           Group(1, "h", <<"h1", "A", "A_entry", "A_0">>),
+           Group(4, "hh", <<"k1", "A", "A_entry", "A_0_entry">>),
+           Field(5, "hf", <<"y1">>, 0, "uint8") >>
 
 \* X1: types against messages and fields of those types
 SkX1 == << PType("pt", <<"t1", "A", "M1">>, "uint32", "required"),
